@@ -265,7 +265,7 @@ impl Prop for C06 {
         true
     }
     fn random_cases(tier: Tier) -> u64 {
-        if tier == Tier::Quick { 20_000 } else { 600_000 }
+        if tier == Tier::Quick { 300_000 } else { 4_000_000 }
     }
     fn execute(k: &InsCase, ctx: &mut Ctx) -> Verdict {
         match k.elem {
@@ -331,6 +331,59 @@ fn drive_drain<E: Elem, D: Iterator<Item = E> + DoubleEndedIterator + ExactSizeI
             }
             DStep::SizeHint => {
                 ensure!(d.size_hint() == (want.len(), Some(want.len())), format!("{}/drain-size-hint", name), "{}: step {} size_hint() {:?} but {} items remain", name, i, d.size_hint(), want.len());
+            }
+            DStep::Nth(k) | DStep::NthBack(k) => {
+                let k = *k as usize % 4;
+                let back = matches!(s, DStep::NthBack(_));
+                let g = if back { d.nth_back(k) } else { d.nth(k) };
+                // ideal: the k skipped elements leave the sequence (the drain drops them)
+                let mut w = None;
+                for j in 0..=k {
+                    w = if back { want.pop_back() } else { want.pop_front() };
+                    if w.is_none() {
+                        break;
+                    }
+                    let _ = j;
+                }
+                if !E::ZST {
+                    ensure!(g.as_ref().map(|e| e.id()) == w, format!("{}/drain-nth", name), "{}: step {} {:?} yielded {:?}, the ideal sequence gives {:?}", name, i, s, g.as_ref().map(|e| e.id()), w);
+                } else {
+                    ensure!(g.is_some() == w.is_some(), format!("{}/drain-nth", name), "{}: step {} {:?} is_some {} expected {}", name, i, s, g.is_some(), w.is_some());
+                }
+                ensure!(d.len() == want.len(), format!("{}/drain-len-after-nth", name), "{}: step {} {:?}: len() {} but {} items remain", name, i, s, d.len(), want.len());
+                if let Some(e) = g {
+                    if back {
+                        b += 1;
+                    } else {
+                        f += 1;
+                    }
+                    held.push(e);
+                }
+            }
+            DStep::CountRest => {
+                let n = d.by_ref().count();
+                ensure!(n == want.len(), format!("{}/drain-count", name), "{}: step {} count() {} but {} items remain", name, i, n, want.len());
+                want.clear();
+            }
+            DStep::LastRest => {
+                let g = d.by_ref().last();
+                let w = want.pop_back();
+                want.clear();
+                if !E::ZST {
+                    ensure!(g.as_ref().map(|e| e.id()) == w, format!("{}/drain-last", name), "{}: step {} last() yielded {:?}, the ideal sequence gives {:?}", name, i, g.as_ref().map(|e| e.id()), w);
+                }
+                if let Some(e) = g {
+                    b += 1;
+                    held.push(e);
+                }
+            }
+            DStep::RFoldRest => {
+                let got: Vec<u64> = d.by_ref().rev().fold(Vec::new(), |mut a, e| {
+                    a.push(e.id());
+                    a
+                });
+                let w: Vec<u64> = want.drain(..).rev().collect();
+                ensure!(E::ZST && got.len() == w.len() || got == w, format!("{}/drain-rfold", name), "{}: step {} rev().fold() visited {:?}, the ideal sequence gives {:?}", name, i, got, w);
             }
         }
     }
@@ -486,6 +539,12 @@ impl Prop for C07 {
                                     emit(RemCase { elem, cols, rows, exact_cap, axis, pop: true, at: 0, script: script.clone() });
                                 }
                             }
+                            // skipping consumption patterns: the skipped elements must be dropped by the drain
+                            for script in [vec![DStep::Nth(1), DStep::Len], vec![DStep::NthBack(1), DStep::Next], vec![DStep::Nth(2), DStep::NthBack(1), DStep::CountRest], vec![DStep::Next, DStep::LastRest], vec![DStep::NthBack(0), DStep::RFoldRest], vec![DStep::Nth(3), DStep::Nth(3)]] {
+                                for at in 0..dim {
+                                    emit(RemCase { elem, cols, rows, exact_cap, axis, pop: false, at: at as u64, script: script.clone() });
+                                }
+                            }
                             emit(RemCase { elem, cols, rows, exact_cap, axis, pop: false, at: dim as u64, script: vec![] });
                             emit(RemCase { elem, cols, rows, exact_cap, axis, pop: false, at: dim as u64 + 1, script: vec![] });
                             emit(RemCase { elem, cols, rows, exact_cap, axis, pop: false, at: u64::MAX, script: vec![] });
@@ -520,7 +579,7 @@ impl Prop for C07 {
         true
     }
     fn random_cases(tier: Tier) -> u64 {
-        if tier == Tier::Quick { 20_000 } else { 600_000 }
+        if tier == Tier::Quick { 300_000 } else { 4_000_000 }
     }
     fn execute(k: &RemCase, ctx: &mut Ctx) -> Verdict {
         match k.elem {
